@@ -93,15 +93,31 @@ class MonitorOb(TemplateObligation):
         names = Names(default_len=2)
         exc = None
         try:
-            accessors(self.script.runner(names))
+            lr = self.script.runner(names)
+            accessors(lr)
             TWIN["n"] = 0
             twin_fault()
         except SQLLineageException as e:
             exc = None          # the library's own exception types are within the contract
             lib = type(e).__name__
+            # ... and so is every accessor of the SAME runner object asked after the failure ("any accessor")
+            exc = self.again(lr)
         except Exception as e:
             exc = type(e).__name__
         return Verdict(exc is None, {"names": names, "escaped": exc}, self.region(exc, names) if exc else None)
+
+    @staticmethod
+    def again(lr):
+        from sqllineage.exceptions import SQLLineageException
+
+        for acc in (lambda: lr.source_tables, lambda: lr.get_column_lineage(), lambda: lr.to_cytoscape(), lambda: str(lr), lambda: lr.statements()):
+            try:
+                acc()
+            except SQLLineageException:
+                pass
+            except Exception as e:
+                return "%s on a later access" % type(e).__name__
+        return None
 
     def concretise(self, verdict, model):
         n = verdict.data["names"].concretise(model)
@@ -110,7 +126,7 @@ class MonitorOb(TemplateObligation):
     def replay(self, conc, verdict_ok):
         from lx import replay as R
 
-        r = R.run_real(conc["sql"], self.dialect, cyto=True, statements=True)
+        r = R.run_real(conc["sql"], self.dialect, cyto=True, statements=True, again=True)
         if r.get("ok"):
             return {"real_ok": True, "lifted_matches": verdict_ok, "detail": "returned a result"}
         own = "SQLLineageException" in r.get("mro", [])
@@ -175,18 +191,20 @@ SUPPORTED = ["INSERT INTO zqt1 SELECT ca FROM zqt2", "CREATE TABLE zqt3 AS SELEC
 class SilentOb(TemplateObligation):
     dialect = "ansi"
 
-    def __init__(self, n, ukind):
-        self.n, self.ukind = n, ukind
-        self.key = "silent/n%d/%s" % (n, ukind)
+    def __init__(self, n, ukind, tsql=False):
+        # tsql: dialect tsql in TSQL_NO_SEMICOLON mode (the runner takes another route to its analyzer there)
+        self.n, self.ukind, self.tsql = n, ukind, tsql
+        self.dialect = "tsql" if tsql else "ansi"
+        self.key = "silent/n%d/%s%s" % (n, ukind, "/tsql-no-semicolon" if tsql else "")
         self.stmts = SUPPORTED[:n]
 
     def prepare(self):
-        self.base = LiftedScript(SUPPORTED[:self.n], "ansi")
+        self.base = LiftedScript(SUPPORTED[:self.n], self.dialect)
         self.with_u = {}
         for k in range(self.n + 1):
             st = list(SUPPORTED[:self.n])
             st.insert(k, UNSUPPORTED[self.ukind])
-            self.with_u[k] = LiftedScript(st, "ansi")
+            self.with_u[k] = LiftedScript(st, self.dialect)
 
     def body(self):
         import warnings
@@ -198,21 +216,33 @@ class SilentOb(TemplateObligation):
         silent = fork_bool("silent")
         sc = self.with_u[k]
         why = None
+        import contextlib
+
+        from sqllineage.config import SQLLineageConfig
+
+        mode = (lambda: SQLLineageConfig(TSQL_NO_SEMICOLON=True)) if self.tsql else contextlib.nullcontext
         try:
-            with warnings.catch_warnings(record=True) as w:
+            with warnings.catch_warnings(record=True) as w, mode():
                 warnings.simplefilter("always")
-                got = dump_runner(sc.runner(names, silent_mode=silent), quiet=False)
+                lr = sc.runner(names, silent_mode=silent, tsql=self.tsql)
+                got = dump_runner(lr, quiet=False)
             if not silent:
                 why = "an unsupported statement did not raise in normal mode"
             else:
                 if not any("support" in str(x.message) for x in w):
                     why = "no warning was emitted for the skipped statement"
-                want = dump_runner(self.base.runner(names))
+                with mode():
+                    want = dump_runner(self.base.runner(names, tsql=self.tsql))
                 if why is None and not got.same(want):
                     why = "result differs from the script without the unsupported statement"
         except UnsupportedStatementException:
             if silent:
                 why = "UnsupportedStatementException escaped in silent mode"
+            else:
+                # the same runner asked again after the failure stays within the contract
+                esc = MonitorOb.again(lr)
+                if esc:
+                    why = "internal error escaped: " + esc
         except SQLLineageException as e:
             why = "another library exception: " + type(e).__name__
         except Exception as e:
@@ -222,18 +252,20 @@ class SilentOb(TemplateObligation):
     def concretise(self, verdict, model):
         d = verdict.data
         n = d["names"].concretise(model)
-        return {"names": n, "sql": self.with_u[d["k"]].render(n), "sql_without": self.base.render(n), "silent": d["silent"], "why": d["why"]}
+        sep = "\n" if self.tsql else ";\n"
+        return {"names": n, "sql": self.with_u[d["k"]].render(n, sep=sep), "sql_without": self.base.render(n, sep=sep), "silent": d["silent"], "why": d["why"]}
 
     def replay(self, conc, verdict_ok):
         from lx import replay as R
 
-        r = R.run_real(conc["sql"], "ansi", silent_mode=conc["silent"])
+        cfg = {"TSQL_NO_SEMICOLON": True} if self.tsql else None
+        r = R.run_real(conc["sql"], self.dialect, silent_mode=conc["silent"], again=not conc["silent"], config=cfg)
         if not conc["silent"]:
             ok = (not r.get("ok")) and r.get("error") == "UnsupportedStatementException"
             return {"real_ok": ok, "lifted_matches": ok == verdict_ok, "detail": {"error": r.get("error"), "m": (r.get("message") or "")[:150]}}
         if not r.get("ok"):
             return {"real_ok": False, "lifted_matches": not verdict_ok, "detail": {"error": r.get("error"), "m": (r.get("message") or "")[:150]}}
-        r0 = R.run_real(conc["sql_without"], "ansi")
+        r0 = R.run_real(conc["sql_without"], self.dialect, config=cfg)
         ok = R.same_dump(r, r0) and "UserWarning" in r.get("warnings", [])
         return {"real_ok": ok, "lifted_matches": ok == verdict_ok, "detail": {"warnings": r.get("warnings")}}
 
@@ -365,6 +397,8 @@ def obligations(tier, seed):
             if tier == "quick" and n == 3 and uk not in ("create_index", "explain_like"):
                 continue
             obs.append(SilentOb(n, uk))
+            if uk == "create_index":
+                obs.append(SilentOb(n, uk, tsql=True))
     obs += [ParseKernelOb(k) for k in (0, 1, 2, 3)]
     obs += [EmptyParseOb(n) for n in (0, 1, 2)]
     return obs
